@@ -33,7 +33,30 @@ class InlineBlock(ast.stmt):
 
 
 class LeaveBlock(ast.stmt):
+    """Leave the `levels` innermost enclosing InlineBlocks (1 unless the statement was moved into a deeper block)."""
+
     _fields = ()
+    _attributes = ("lineno", "col_offset", "end_lineno", "end_col_offset", "levels")
+    levels = 1
+
+
+def _deepen_leaves(stmts, by=1):
+    """Statements moved one block deeper: their own LeaveBlocks (not those inside blocks they bring along) leave one more."""
+    def walk(lst, depth):
+        for st in lst:
+            if isinstance(st, LeaveBlock):
+                if getattr(st, "levels", 1) > depth:
+                    st.levels = getattr(st, "levels", 1) + by
+                continue
+            for field in ("body", "orelse", "finalbody"):
+                sub = getattr(st, field, None)
+                if isinstance(sub, list) and sub and isinstance(sub[0], ast.stmt):
+                    walk(sub, depth + 1 if isinstance(st, InlineBlock) else depth)
+            if isinstance(st, ast.Try):
+                for h in st.handlers:
+                    walk(h.body, depth)
+    walk(stmts, 0)
+    return stmts
 
 
 def _ref_counts(repo):
@@ -262,6 +285,43 @@ def _build_block(helper, call, form, target, caller_locals):
     return block
 
 
+def _thread_guard(block, tmp: str, if_stmt) -> bool:
+    """The block computes `tmp` (a boolean constant at each of its exits) and `if_stmt` tests it at once: put the branch
+    that each exit selects at that exit and drop the test.  `tmp = K; LeaveBlock` becomes `<branch K>; LeaveBlock`; the
+    statements after the `if` still follow the block.  False if the block is not of that shape (nothing is changed)."""
+    neg = isinstance(if_stmt.test, ast.UnaryOp)
+    sites = []
+
+    def scan(lst, top):
+        for i, st in enumerate(lst):
+            if isinstance(st, ast.Assign) and len(st.targets) == 1 and isinstance(st.targets[0], ast.Name) and st.targets[0].id == tmp:
+                if isinstance(st.value, ast.Constant) and st.value.value is None and top and i == 0:
+                    continue  # the default for falling off the end: the helper ends in a return, it is never read
+                last = top and i == len(lst) - 1
+                if not (isinstance(st.value, ast.Constant) and isinstance(st.value.value, bool)) or not (last or (i + 1 < len(lst) and isinstance(lst[i + 1], LeaveBlock))):
+                    return False
+                sites.append((lst, i, st.value.value))
+            for field in ("body", "orelse"):
+                sub = getattr(st, field, None)
+                if isinstance(sub, list) and sub and isinstance(sub[0], ast.stmt) and not isinstance(st, InlineBlock):
+                    if scan(sub, False) is False:
+                        return False
+            if isinstance(st, InlineBlock) and any(isinstance(x, ast.Name) and x.id == tmp for x in ast.walk(st)):
+                return False
+        return True
+
+    if scan(block.body, True) is False or not sites:
+        return False
+    if not (block.body and isinstance(block.body[-1], ast.Assign) and any(l is block.body and i == len(block.body) - 1 for l, i, _ in sites)):
+        return False
+    for lst, i, k in sorted(sites, key=lambda t: -t[1]):
+        taken = if_stmt.body if (k != neg) else if_stmt.orelse
+        lst[i:i + 1] = _deepen_leaves([_copy_node(x) for x in taken]) or [ast.copy_location(ast.Pass(), if_stmt)]
+    if block.body and isinstance(block.body[0], ast.Assign) and isinstance(block.body[0].targets[0], ast.Name) and block.body[0].targets[0].id == tmp:
+        block.body.pop(0)
+    return True
+
+
 def _match(stmt):
     """(form, call, target) if stmt is one of the three inlinable call forms."""
     if isinstance(stmt, ast.Expr) and isinstance(stmt.value, ast.Call):
@@ -354,7 +414,13 @@ def expand(repo, finfo, keep=(), depth=3, pre=None):
                     hlp = _helper_for(repo, finfo, test, keep) if isinstance(test, ast.Call) else None
                     hbody = [x for x in hlp.node.body if not (isinstance(x, ast.Expr) and isinstance(x.value, ast.Constant) and isinstance(x.value.value, str))] if hlp is not None else []
                     straight = hlp is not None and len(hbody) >= 2 and all(isinstance(x, (ast.Assign, ast.AugAssign, ast.AnnAssign, ast.Expr)) for x in hbody[:-1]) and isinstance(hbody[-1], ast.Return)
-                    if straight:  # helpers with branches / loops / handlers stay calls: their result is one opaque truth value
+                    # a guard helper: branches only (no loop, no handler), every return a boolean constant, the last
+                    # statement a return - its exits are threaded into the branches of this `if` (see _thread_guard)
+                    guard = (hlp is not None and not straight and len(hbody) >= 2 and isinstance(hbody[-1], ast.Return)
+                             and all(isinstance(x, (ast.If, ast.Assign, ast.AugAssign, ast.AnnAssign, ast.Expr, ast.Return, ast.Pass, ast.Raise, ast.expr_context, ast.expr, ast.operator,
+                                                    ast.unaryop, ast.cmpop, ast.boolop, ast.keyword, ast.arguments, ast.arg)) for b in hbody for x in ast.walk(b))
+                             and all(isinstance(x.value, ast.Constant) and isinstance(x.value.value, bool) for b in hbody for x in ast.walk(b) if isinstance(x, ast.Return)))
+                    if straight or guard:  # other helpers with branches / loops / handlers stay calls: their result is one opaque truth value
                         tmp = f"_h{len(used)}_{getattr(st, 'lineno', 0)}"
                         if tmp not in locals_:
                             pre_assign = ast.copy_location(ast.Assign(targets=[ast.Name(id=tmp, ctx=ast.Store())], value=test), st)
@@ -364,16 +430,33 @@ def expand(repo, finfo, keep=(), depth=3, pre=None):
                             else:
                                 st.test.operand = name
                             ast.fix_missing_locations(pre_assign)
-                            out.extend(rewrite([pre_assign]))
+                            pre = rewrite([pre_assign])
+                            if guard and len(pre) == 1 and isinstance(pre[0], InlineBlock) and _thread_guard(pre[0], tmp, st):
+                                out.extend(pre)
+                                changed = True
+                                continue  # the `if` has been distributed over the exits of the block
+                            out.extend(pre)
                             changed = True
                 m = _match(st)
                 if m is not None:
                     form, call, target = m
                     helper = _helper_for(repo, finfo, call, keep)
                     if helper is not None:
+                        store_after = None
+                        if form == "assign" and not isinstance(target, str):
+                            # `self.a = self._h(...)`: the helper's result goes through a fresh local and is stored once,
+                            # after the block - not once per return (and once for the default) inside it
+                            tmp = f"_r{st.lineno}_{st.col_offset}"
+                            while tmp in locals_:
+                                tmp += "_"
+                            store_after = ast.copy_location(ast.Assign(targets=[copy.deepcopy(target)], value=ast.Name(id=tmp, ctx=ast.Load())), st)
+                            ast.fix_missing_locations(store_after)
+                            target = tmp
                         block = _build_block(helper, call, form, target, locals_)
                         if block is not None:
                             out.append(block)
+                            if store_after is not None:
+                                out.append(store_after)
                             used.append(helper)
                             changed = True
                             continue
